@@ -332,9 +332,11 @@ def check(ctx, case, schedule, r):
                          l2['errors'][:2])
                 return
             other = [f[1] for f in l2['frames'] if f[1] != 0x05]
-            if sorted(other) != [0, 0]:
+            # (the scenario may end before the new networking thread has
+            # flushed the queued handshake / login start: a prefix is fine)
+            if other not in ([], [0], [0, 0]):
                 ctx.fail('schedule', 'A2-foreign-frame', sub, other[:4],
-                         'handshake and login start (ids 0, 0)')
+                         'at most handshake and login start (ids 0, 0)')
                 return
         heads = [] if l2.get('recorder') else \
             [(f[0], f[1]) for f in l2['frames'][:2]]
@@ -495,10 +497,14 @@ def tasks(tier):
     tl = []
     nsh = 2 if q else 8
     for i in range(len(SMALL)):
+        # (the two-thread reconnect scenarios are long: more shards)
+        nsh = (8 if SMALL[i].get('rc_concurrent') else 2) if q else 8
         for k in range(nsh):
             tl.append(('enum_%d_%d' % (i, k), t_enumerate,
                        dict(index=i, maxpre=2 if q else 3,
-                            limit=6000 if q else 40000, shard=(k, nsh))))
+                            limit=(1500 if SMALL[i].get('rc_concurrent')
+                                   else 6000) if q else 40000,
+                            shard=(k, nsh))))
     for i in range(6 if q else 10):
         tl.append(('random_%d' % i, t_random,
                    dict(n=60 if q else 2500, fine=False)))
